@@ -17,6 +17,7 @@ import (
 )
 
 type frameCtx struct {
+	curLoop *ssa.BasicBlock // header of the loop whose specification is being evaluated (scopes names of loop variables)
 	fn      *ssa.Function
 	env     map[ssa.Value]Val
 	con     *Contract
@@ -538,6 +539,8 @@ func (x *Exec) enterLoop(fc *frameCtx, li *loopInfo, in *State) *State {
 		x.Sc.Comment(fmt.Sprintf("loop %d has no invariant (true)", li.ord))
 	}
 	b := li.header
+	fc.curLoop = b
+	defer func() { fc.curLoop = nil }()
 	// 1. inv-init with phis bound to forward values (already bound by mergeInto)
 	if fc.top {
 		for k, inv := range spec.Invariants {
@@ -630,6 +633,8 @@ func (x *Exec) backEdge(fc *frameCtx, li *loopInfo, from *ssa.BasicBlock, st *St
 		return
 	}
 	b := li.header
+	fc.curLoop = b
+	defer func() { fc.curLoop = nil }()
 	// bind phis to back-edge values in a scratch env overlay
 	pidx := -1
 	for i, p := range b.Preds {
@@ -818,6 +823,12 @@ func (x *Exec) execInstr(fc *frameCtx, b *ssa.BasicBlock, st *State, in ssa.Inst
 			v := x.Sc.Define(i.Name(), x.strByte(s, idx))
 			x.Sc.Assert(tAnd(tLe(mkInt(0), v), tLe(v, mkInt(255))))
 			fc.env[i] = v
+		} else if at, ok := i.X.Type().Underlying().(*types.Array); ok {
+			if _, isA := x.operand(fc, i.X, nil).(ArrayV); !isA {
+				oos("Index on %s", i.X.Type())
+			}
+			x.safety(st, "idx", i.Pos(), i, tAnd(tLe(mkInt(0), idx), tLt(idx, mkInt(at.Len()))))
+			fc.env[i] = x.freshVal(st, i.Name(), at.Elem())
 		} else {
 			oos("Index on %s", i.X.Type())
 		}
